@@ -9,7 +9,7 @@ RULE = ("Mode G over an adversarial id/bounds grammar, enumerated completely: to
         "(id in {x,y,a,b,ab,A(=top),B,C}, bounds from a menu with equal-sum pairs (0,3)/(1,2), the hash(-1)==hash(-2) pair (-1,5)/(-2,5) and "
         "plain differences) or a compound (id B/C/generated, sign/value in {(+,1),(+,2),(-,-1),(-,-2),(-,1),(+,-1)}, 1..2 children incl. a leaf with a box symmetric around 0, optionally nested), "
         "plus a family where one id is a compound with a pre-fixed / plain own variable AND a leaf or another compound with other bounds, plus a family of definitions of one id whose child-id lists look alike in joined text (ids containing ',' / ', ' / quotes / blanks), plus a family of generated-id coincidences under DIFFERENT parents (+(ab,c) vs +(a,bc) ...), plus wrapper families that reuse the same object / an equal copy / a different definition of one id under two parents, self "
-        "references and 2-/3-cycles through ids. oracle: soundness errors()==[] => reference validator (own traversal, compares ids and "
+        "references and 2-/3-cycles through ids. After the first verdict one of two equal copies of a compound is EDITED IN PLACE and the model validated again. oracle: soundness errors()==[] => reference validator (own traversal, compares ids and "
         "(lo,hi) tuples and (sign,value,children) directly, never hashes); completeness on models whose ids are pairwise distinct or whose "
         "equal ids carry identical records. non-trivial = distinct model that the reference rejects")
 ASSUMPTIONS = [
